@@ -296,6 +296,12 @@ def answer (line : String) : String :=
       | some bytes, [m] => match decodeFormat bytes with
           | some e =>
             let ws := wordsOfBytes e bytes
+            -- the dense read goes through `decodeBytes`, the function `file_roundtrip_bytes` is about
+            match (if m == 'd' then decodeBytes bytes else none) with
+            | some rs => "ok " ++ "|".intercalate (rs.map fun r =>
+                s!"{toHex r.name},{r.rows},{r.cols},{r.form},{r.mtype},0," ++
+                  " ".intercalate (r.data.flatMap fun col => col.map (showEntry (r.mtype == 4))))
+            | none =>
             match rdFile e (ws.length + 1) ws with
             | some ds => "ok " ++ "|".intercalate (showAll m 0 ds)
             | none => "decode-error"
